@@ -69,6 +69,15 @@ func init() {
 	})
 }
 
+// c19Prefs: single-suite preference lists shared by every worker (read-only for the library).
+var c19Prefs = func() map[refbmc.Suite][]ipmi.CipherSuite {
+	m := map[refbmc.Suite][]ipmi.CipherSuite{}
+	for _, su := range stdSuites() {
+		m[su] = []ipmi.CipherSuite{libSuite(su)}
+	}
+	return m
+}()
+
 const c19PwLen = 10
 
 // c19Creds holds every worker's password back to back.
@@ -221,7 +230,8 @@ func c19Worker(seed int64, id int, useUDP bool, concurrent bool) (transcript []s
 	open := func(k int) {
 		opts := &bmc.V2SessionOpts{SessionOpts: bmc.SessionOpts{Username: cfg.Username, Password: pw, MaxPrivilegeLevel: ipmi.PrivilegeLevelAdministrator}}
 		if k >= 0 {
-			opts.CipherSuites = []ipmi.CipherSuite{libSuite(cfg.Suites[k%len(cfg.Suites)])}
+			// one preference list per suite for the whole process: callers share their options
+			opts.CipherSuites = c19Prefs[cfg.Suites[k%len(cfg.Suites)]]
 		}
 		s, err := st.NewV2Session(ctx, opts)
 		if err == nil {
